@@ -453,6 +453,7 @@ def check(res):
     poisoned = False  # a failed/interrupted write left a partial file behind (zict never removes it)
     alts = {}  # key -> intermediate values the operation in flight assigns to it (update with a repeated key)
     pending = None  # (kind, touched, before-durable, after-durable, torn) awaiting the reopen event
+    errkeys = set()  # keys whose file an injected write error left behind what the mapping shows
 
     def fail(cls, text, **kw):
         out.append(V(cls, text, **kw))
@@ -495,7 +496,10 @@ def check(res):
             else:
                 for k in sorted(set(got) | set(live)):
                     g = got.get(k, ABSENT)
-                    ok = g == live.get(k, ABSENT) or (k in dirty and g == durable.get(k, ABSENT))
+                    # (a key that an earlier write error left on disk without its value, or with its old one, is
+                    # still shown by the mapping: a clean exit writes what the mapping shows - 'most recently set')
+                    lost_by_error = k in errkeys and k in live and live.get(k, ABSENT) != durable.get(k, ABSENT)
+                    ok = g == live.get(k, ABSENT) or (k in dirty and not lost_by_error and g == durable.get(k, ABSENT))
                     if not ok:
                         what = "resurrected" if k not in live else ("lost" if g == ABSENT else "stale")
                         fail(f"clean-exit-{what}", f"after a clean exit ({how}) key {k!r} is {_short(g)}; the previous instance last held {_short(live.get(k, ABSENT))}" + (f" (last set/flushed {_short(durable.get(k, ABSENT))})" if k in dirty else ""), key=k)
@@ -504,6 +508,7 @@ def check(res):
             live = copy.deepcopy(got)
             durable = copy.deepcopy(got)
             dirty = set()
+            errkeys = set()
             continue
         if kind == "exit":
             i = data["i"]
@@ -586,6 +591,7 @@ def check(res):
                 durable = copy.deepcopy(got)
                 # keys whose in-memory and on-disk values now differ behave like mutated-in-place keys
                 dirty = {k for k in set(live) | set(durable) if live.get(k, ABSENT) != durable.get(k, ABSENT)} | (b_dirty & set(live))
+                errkeys |= {k for k in touched if live.get(k, ABSENT) != durable.get(k, ABSENT)}
                 continue
             if fired:
                 # a fault fired but the operation swallowed it?  (no such path today)
